@@ -29,6 +29,8 @@ type Transaction struct {
 	rec       sessionRecord
 	stats     cStatStaging
 	closed    bool
+	// A commit of this transaction failed: its record may sit in the manifest.
+	commitFailed bool
 }
 
 // Get gets the value for the given key. It returns ErrNotFound if the
@@ -219,6 +221,7 @@ func (tr *Transaction) Commit() error {
 		for retry := 0; retry < 3; retry++ {
 			cerr = tr.db.s.commit(&tr.rec, false)
 			if cerr != nil {
+				tr.commitFailed = true
 				tr.db.logf("transaction@commit error R·%d %q", retry, cerr)
 				select {
 				case <-time.After(time.Second):
@@ -263,6 +266,24 @@ func (tr *Transaction) Commit() error {
 }
 
 func (tr *Transaction) discard() {
+	// A failed commit may have left this transaction's record in the current
+	// manifest (written, not synced). Its tables may only be removed once a
+	// manifest that does not name them is current, otherwise the next Open
+	// would find a manifest naming missing files. Start that fresh manifest
+	// now; if even that fails keep the files: unless the record turns out to
+	// be durable they are unreferenced and removed by the next Open.
+	if tr.commitFailed {
+		tr.db.compCommitLk.Lock()
+		keep := false
+		if tr.db.s.manifestFailed {
+			keep = tr.db.s.commit(&sessionRecord{}, false) != nil
+		}
+		tr.db.compCommitLk.Unlock()
+		if keep {
+			tr.db.logf("transaction@discard keeping tables of a failed commit")
+			return
+		}
+	}
 	// Discard transaction.
 	for _, t := range tr.tables {
 		tr.db.logf("transaction@discard @%d", t.fd.Num)
